@@ -75,7 +75,11 @@ def gen(seed, tier):
         n = r.choice([2, 2, 3, 4, 5, 6, 7, 9, 10, 11, 12])
         k = n if r.random() < 0.6 else r.randrange(0, n + 1)
         if r.random() < 0.05:
-            k = n + r.randrange(1, 3)   # outside the claim: more requested than available
+            # outside the claim (more requested than available): single steps only. In a nested tree an error raised by one lazy
+            # generator surfaces only if a later step pulls that far (NoveltyStep never consumes its input), which the eager
+            # size model does not describe; inside the claim (n >= k) no step fails, so laziness is irrelevant there.
+            k = n + r.randrange(1, 3)
+            s = gen_step(r, 0, mo)
         cases.append({"op": "len", "step": s, "n": n, "k": k, "form": r.choice(forms), "mo": mo, "seed": r.randrange(100)})
     # nested parallel inside a sequence (the consumed-iterator case), default GP step at small sizes
     for n in range(2, 13):
